@@ -5,7 +5,7 @@ from vlib import Chars, cps, TlaSet
 # delimiter pool (C07/C08/C01/C18): with / without self-overlap, multi-byte, identical, space-containing
 PAIRS = [("<", ">"), ("<!-- <", "> -->"), ("/* <", "> */"), ("// --", "-- //"), ("aab", "bba"), ("%%", "%%"),
          ("《", "》"), ("<<", ">>"), (" <", " >"), ("-->", "<!--"), ("ああい", "いいあ"), ("éé-", "-éé"),
-         ("aabaac", "-- -->")]          # borders within borders: the fallback has to walk the whole failure chain
+         ("aabaac", "-- -->"), ("--", "-->"), ("{%", "%")]   # start delimiter a prefix of the end delimiter / end delimiter inside the start delimiter          # borders within borders: the fallback has to walk the whole failure chain
 
 
 HARD_PAIRS = [("ああい", "いいあ"), ("éé-", "-éé"), ("※※ <", "> ※")]
@@ -193,16 +193,17 @@ K = {"T1": ["T1", False], "T2": ["T2", False], "T3": ["T3", False], "T1u": ["T1"
      "M1": ["M1", False], "M2": ["M2", False], "M3": ["M3", False], "M1u": ["M1", True], "M2u": ["M2", True],
      "R": ["R", False], "P": ["P", False], "S": ["S", False], "U": ["U", False], "T": ["T", False], "F": ["F", False],
      "Ru": ["R", True], "Pu": ["P", True], "Tu": ["T", True], "Su": ["S", True],
-     "SP": ["SP", False], "SF": ["SF", False], "SPu": ["SP", True], "NV": ["NV", False], "NN": ["NN", False], "NVu": ["NV", True]}
+     "SP": ["SP", False], "SF": ["SF", False], "SPu": ["SP", True], "NV": ["NV", False], "NN": ["NN", False], "NVu": ["NV", True],
+     "UX": ["UX", False], "UP": ["UP", False], "XR": ["XR", False], "XT": ["XT", False], "UXu": ["UX", True]}
 
 
 def lines_gen(L, D, E, kinds, unit="  ", base=0, free=(), ws=(), blank=True, suffix="", simulate=None, code_a="", code_b="",
-              mb=False, max_code=99, empty_default=False, pairs=False, preamble=0, inline=False, pair_kind="R", eol="\n", tag_sep=" ", flag_val="", quote="'", flags_first=False, tail=False, pad="", wide=False, free_tags=True, tail_kinds=None, crossing=False, free_code=True):
+              mb=False, max_code=99, empty_default=False, pairs=False, preamble=0, inline=False, pair_kind="R", eol="\n", tag_sep=" ", flag_val="", quote="'", flags_first=False, tail=False, pad="", wide=False, free_tags=True, tail_kinds=None, crossing=False, free_code=True, extra_attr=""):
     from vlib import TlaSet
     g = {"base": "GenLines", "constraint": "Feasible",
          "consts": {"L": L, "D": D, "E": E, "Kinds": TlaSet([K[k] for k in kinds]), "Unit": Chars(unit), "Base": base,
                     "FreeInd": TlaSet(list(free)), "FreeTags": free_tags, "FreeCode": free_code, "WsLens": TlaSet(list(ws)), "Blank": blank, "Suffix": Chars(suffix), "CodeA": Chars(code_a), "CodeB": Chars(code_b), "MbCode": mb, "MaxCode": max_code, "EmptyDefault": empty_default, "PairLines": pairs, "Preamble": preamble,
-                    "InlineTags": inline, "PairKind": K[pair_kind], "EOL": Chars(eol), "TagSep": Chars(tag_sep), "FlagVal": Chars(flag_val), "QuoteCh": ord(quote), "FlagsFirst": flags_first, "Crossing": crossing, "TailElems": tail, "TailKinds": TlaSet([K[k] for k in (tail_kinds or kinds)]), "TagPad": Chars(pad), "WideCode": wide,
+                    "InlineTags": inline, "PairKind": K[pair_kind], "EOL": Chars(eol), "TagSep": Chars(tag_sep), "FlagVal": Chars(flag_val), "QuoteCh": ord(quote), "FlagsFirst": flags_first, "Crossing": crossing, "TailElems": tail, "TailKinds": TlaSet([K[k] for k in (tail_kinds or kinds)]), "TagPad": Chars(pad), "ExtraAttr": Chars(extra_attr), "WideCode": wide,
                     "PastTo": Chars(PAST), "FutureTo": Chars(FUTURE),
                     "Tos": [Chars(t) for t in TOS], "Names": [Chars(n) for n in MNAMES]}}
     if simulate:
@@ -231,7 +232,8 @@ def kitchen_sink(ctx, kinds, L, n):
     return lines_gen(L, 3, 5, kinds, unit=["  ", "\t", " \t", "    "][sd % 4], base=sd % 2, free=(0, 1, 2), ws=(1, 2), blank=True,
                      suffix=["", "é", "あ"][sd % 3], tag_sep=[" ", "\n     "][(sd // 2) % 2], inline=True, pairs=True,
                      code_b=["", " = 1"][(sd // 3) % 2], flag_val=["", "='1'", '="true"'][(sd // 2) % 3], quote=["'", '"'][(sd + 1) % 2],
-                     flags_first=(sd % 3 == 1), tail=True, pad=["", " "][(sd // 3) % 2], simulate=(n, L))
+                     flags_first=(sd % 3 == 1), tail=True, pad=["", " "][(sd // 3) % 2],
+                     extra_attr=["", " skipper", " Skip", " xunwrap-block", " names='a'", " unwrap-blocks"][sd % 6], simulate=(n, L))
 
 
 def block_jobs(ctx, invariants, ops, lite=False):
@@ -255,6 +257,10 @@ def block_jobs(ctx, invariants, ops, lite=False):
                 lines_gen(4, 2, 2, ["R", "S", "T"], blank=False, quote='"', flags_first=True),
                 lines_gen(4, 2, 2, ["R", "P"], blank=True, tail=True, max_code=2),                      # elements behind code on one line
                 lines_gen(5, 1, 1, ["R"], blank=True, wide=True, max_code=2),                           # lines of wide blanks (U+3000, NBSP) only
+                lines_gen(4, 2, 2, ["R", "UX", "UP", "XR", "XT"], blank=False, max_code=1),                # near-miss tag names, the other evaluator's attribute
+                lines_gen(4, 1, 1, ["R", "P", "T"], blank=False, extra_attr=" skipper"),
+                lines_gen(4, 1, 1, ["R", "T"], blank=False, extra_attr=" Skip"),
+                lines_gen(4, 1, 1, ["R", "P"], blank=False, extra_attr=" names='b' to2='x'"),
                 lines_gen(6, 2, 3, ["R", "F", "P"], blank=False, crossing=True, max_code=1),            # crossing regions: <a> <b> </a> </b>
                 dict(lines_gen(4, 2, 2, ["NV", "NN", "R"], blank=False), cfg={"targets": ["a", ""]}),   # valueless names, "" among the targets
                 lines_gen(4, 2, 2, ["R", "P"], blank=False, pad=" "),                                   # padded tags: <tag a='b' >
@@ -272,6 +278,9 @@ def block_jobs(ctx, invariants, ops, lite=False):
         ("block-sim", [lines_gen(14, 3, 5, ["R", "P", "S", "SP", "SF", "U", "T", "F"], ws=(2,), base=ctx.seed % 2, simulate=(1500, 14)),
                        kitchen_sink(ctx, ["R", "P", "S", "U", "T", "F"], 14, 600)]),
         ("block-html", [dict(lines_gen(7, 2, 2, ["R", "P", "T"], ws=(2,)), cfg=html)]),
+        ("block-near-misses", [lines_gen(6, 2, 2, ["R", "UX", "UP", "XR", "XT"], blank=False, max_code=2),
+                               lines_gen(6, 2, 2, ["R", "P", "T"], blank=False, extra_attr=" skipper"), lines_gen(6, 2, 2, ["R", "T"], extra_attr=" Skip"),
+                               lines_gen(6, 2, 2, ["Ru", "R"], blank=False, extra_attr=" xunwrap-block unwrap-blocks")]),
         ("block-crossing", [lines_gen(8, 3, 3, ["R", "P", "T"], blank=False, crossing=True, max_code=3)]),
         ("block-valueless-names", [dict(lines_gen(6, 2, 2, ["NV", "NN", "R", "NVu"], blank=False), cfg={"targets": ["a", ""]})]),
         ("block-wide-blanks", [lines_gen(7, 1, 2, ["R"], blank=True, wide=True, max_code=3), lines_gen(6, 2, 2, ["R", "P"], base=1, ws=(1,), wide=True)]),
@@ -313,6 +322,8 @@ def unwrap_jobs(ctx, invariants, ops, lite=False):
                 lines_gen(6, 2, 2, ["Ru", "Tu", "P"], free=(1,), blank=False, quote='"', flags_first=True),   # flags first, double quotes
                 lines_gen(6, 2, 2, ["Ru", "R"], blank=False, tail=True, max_code=2),
                 lines_gen(6, 2, 2, ["Ru", "P"], blank=False, pad=" "),
+                lines_gen(6, 1, 1, ["Ru", "R"], free=(1,), blank=False, extra_attr=" xunwrap-block"),
+                lines_gen(6, 1, 1, ["R", "UXu"], free=(1,), blank=False, extra_attr=" unwrap-blocks UNWRAP-BLOCK"),
                 dict(lines_gen(10, 2, 2, ["Ru"], blank=False, free=(0,), free_code=False, max_code=6), constraint="FeasibleU"),   # nested blocks, tags in the same column
                 lines_gen(16, 3, 4, ["Ru", "R", "P", "Pu", "S", "Su"], free=(0, 1, 2), ws=(2,), simulate=(15 if lite else 80, 16)),
                 kitchen_sink(ctx, ["Ru", "R", "P", "Pu", "T", "Tu", "Su"], 14, 10 if lite else 40)]
@@ -918,7 +929,7 @@ def check_C20(ctx):
         zones = [zones[ctx.seed % 4], zones[(ctx.seed + 1) % 4]]
     langs = [""] if q else ["", "C", "en_US.UTF-8", "ja_JP.UTF-8"]
     ctx.job("cli-defaults", gens=[{"base": "GenCli", "consts": {"Docs": [Chars(d) for d in (CLI_DOCS_DEFAULT[:4] if q else CLI_DOCS_DEFAULT)],
-                                                                "TargetPool": [Chars("a"), Chars("feature1"), Chars("x y")],
+                                                                "TargetPool": [Chars(""), Chars("a"), Chars("feature1"), Chars("x y")],
                                                                 "Zones": zones, "Langs": langs, "OmitAll": True, "Part": "all", "Currents": TlaSet(["given"])}}],
             invariants=["Inv_C20"], ops=[], cli=True,
             cfg={"ds": "<!-- <", "de": "> -->", "tl": "time-limited", "rm": "removal-marker", "off": "+00:00",
